@@ -10,6 +10,7 @@ import DaskModel.Model.Csv
 import DaskModel.Model.CsvOptsIO
 import DaskModel.Model.MergeAsofIO
 import DaskModel.Model.AlignIO
+import DaskModel.Model.FromPandasUnsortedIO
 import DaskModel.Model.MergePlanIO
 import DaskModel.Model.PartQuantIO
 import DaskModel.Model.GroupbyXIO
@@ -404,6 +405,6 @@ def table : List (String × Handler) := [("sdl", hSdl), ("sdl-stats", hSdlStats)
   ("tofewer-bounds", hToFewerBounds), ("split-positions", hSplitPositions), ("nsplits", hNsplits),
   ("lower-kind", hLowerKind), ("div-layer", hDivLayer), ("div-layer-ok", hDivLayerOK), ("repart-divs", hRepartDivs),
   ("tofewer", hToFewer), ("tomore", hToMore),
-  ("iter-chunks", hIterChunks), ("size-nsplits", hSizeNsplits), ("repart-size", hRepartSize)] ++ Dask.CsvOpts.handlers ++ Dask.MergeAsof.handlers ++ Dask.Align.handlers ++ Dask.MergePlan.handlers ++ Dask.SortValuesIO.handlers ++ Dask.PQ.handlers ++ Dask.GroupbyX.handlers ++ Dask.AlignDivs.handlers ++ Dask.LocList.handlers
+  ("iter-chunks", hIterChunks), ("size-nsplits", hSizeNsplits), ("repart-size", hRepartSize)] ++ Dask.CsvOpts.handlers ++ Dask.MergeAsof.handlers ++ Dask.Align.handlers ++ Dask.MergePlan.handlers ++ Dask.SortValuesIO.handlers ++ Dask.PQ.handlers ++ Dask.GroupbyX.handlers ++ Dask.AlignDivs.handlers ++ Dask.LocList.handlers ++ Dask.FPU.handlers
 
 def main : IO Unit := runDriver table
